@@ -110,14 +110,15 @@ func (w *c10World) restored() string {
 		v, _ := strconv.ParseInt(a.NameID, 16, 64)
 		ids[int(v)] = true
 	}
+	// the restore loop of Teamserver.Start asks through the teamserver's own helpers
+	rts := &server.Teamserver{DB: d}
 	for _, a := range agents {
-		v, _ := strconv.ParseInt(a.NameID, 16, 64)
-		if p, err := d.ParentOf(int(v)); err == nil {
+		if p, err := rts.ParentOf(a); err == nil {
 			if ids[p] {
 				ls = append(ls, fmt.Sprintf("%08x>%s", uint32(p), a.NameID))
 			}
 		}
-		for _, c := range d.LinksOf(int(v)) {
+		for _, c := range rts.LinksOf(a) {
 			if !ids[c] { // Start() would append a nil *Agent to this agent's links
 				dangling = append(dangling, fmt.Sprintf("%s>%08x", a.NameID, uint32(c)))
 			}
